@@ -110,6 +110,8 @@ func c17Ops(si, prfIdx int, thorough bool) []c17Op {
 	ops = append(ops,
 		protect(0, true, 1), protect(1, false, 2), protect(1, true, 5), protect(2, false, 6),
 		unprotect("unprotect(tampered header)", flip(gI, 18), false, false),
+		unprotect("unprotect(forged, message id raised)", func() []byte { x := append([]byte(nil), gI...); x[20], x[21], x[22], x[23] = 0xff, 0xff, 0xff, 0xf0; return x }(), false, false),
+		unprotect("unprotect(genuine I->R, higher message id)", mk(ks, 1, true, 30), false, true),
 		unprotect("unprotect(genuine I->R)", gI, false, false), unprotect("unprotect(genuine R->I)", gR, true, true),
 		unprotect("unprotect(tampered ciphertext)", flip(gI, 28+4+16+3), false, false), unprotect("unprotect(tampered icv)", flip(gR, len(gR)-1), true, false),
 		unprotect("unprotect(truncated)", gI[:len(gI)-7], false, false), unprotect("unprotect(short sk body)", append(append([]byte(nil), gI[:30]...), 0, 9, 1, 2, 3, 4, 5), false, false),
@@ -119,7 +121,7 @@ func c17Ops(si, prfIdx int, thorough bool) []c17Op {
 	if thorough {
 		ops = append(ops,
 			protect(2, true, 3), protect(0, false, 4), protect(1, true, 1),
-			unprotect("unprotect(genuine I->R #2)", mk(ks, 1, true, 30), false, true), unprotect("unprotect(genuine R->I #2)", mk(ks, 2, false, 40), true, false),
+			unprotect("unprotect(genuine R->I #2)", mk(ks, 2, false, 40), true, false),
 			unprotect("unprotect(tampered header R->I)", flip(gR, 21), true, false), unprotect("unprotect(garbage)", univ.Pat(90, 7), true, false),
 			unprotect("unprotect(prefix 40)", gR[:40], true, false), unprotect("unprotect(header only)", gI[:28], false, false),
 			child(24, 0, univ.Pat(64, 6)), child(16, 2, univ.Pat(65, 7)), child(32, 1, []byte{}),
@@ -155,7 +157,7 @@ func init() {
 	engine.Register(&engine.Check{
 		ID:    "C17",
 		Level: "model_checking",
-		Rule: "explicit-state search over one real IKESAKey object per suite (9 suites; thorough: × 3 PRFs): ops = protect as either role (messages × IV scripts), unprotect genuine messages of both directions (header parsed or not), unprotect tampered ciphertext / tampered ICV / tampered header, truncated, short SK body, garbage, reflected and cross-key messages, derive Child SAs (configurations × nonces) — 15 ops (quick) / 27 ops (thorough); state = canonical dump of the whole SA object graph incl. the hash and cipher internals; successors by replay from a fresh object; search to closure. " +
+		Rule: "explicit-state search over one real IKESAKey object per suite (9 suites; thorough: × 3 PRFs): ops = protect as either role (messages × IV scripts), unprotect genuine messages of both directions (header parsed or not), unprotect tampered ciphertext / tampered ICV / tampered header, truncated, short SK body, garbage, reflected and cross-key messages, derive Child SAs (configurations × nonces) — 17 ops (quick) / 28 ops (thorough); state = canonical dump of the whole SA object graph incl. the hash and cipher internals; successors by replay from a fresh object; search to closure. " +
 			"Oracle on every transition: the op's behavioural outcome (protected datagram accepted and read by the independent peer, decoded projection, error-ness, child keys) equals its outcome on a freshly built SA with the same keys; the fresh outcomes are validated once against the reference (protected bytes accepted by the independent peer, child keys = RFC). distinct_nontrivial = distinct (state, op) transitions compared",
 		Assumptions: []string{"closure of the concrete state space covers histories of every length over the op alphabet, including the 64 of the quantifier"},
 		Run:         runC17,
